@@ -27,6 +27,7 @@ SPEC = dict(
         dict(pkg="./api", run="^TestVerifC02RaceChain$", race=True, timeout=300, timeout_thorough=2400),
         dict(pkg="./rpc/internal/serverinterceptors", run="^TestVerifC02RPCChain$", race=True, timeout=300, timeout_thorough=1800),
         dict(pkg="./rpc/internal", run="^TestVerifC02RPCServer$", timeout=300, timeout_thorough=1800),
+        dict(pkg="./rpc", run="^TestVerifC02RPCEntry$", timeout=300, timeout_thorough=1800),
         dict(pkg="./api", run="^TestVerifC02RaceChain$", race=True, thorough_only=True, timeout_thorough=2400,
              env_thorough={"C02_BATCH_BASE": "200000", "C02_BATCHES": "120"},
              failpoints=_FP, failpoint_terms="c02FpFlush=25.0%sleep(3);c02FpTimeout=25.0%sleep(3);c02FpWrite=10.0%sleep(1)"),
